@@ -21,6 +21,11 @@ Complete small-scope input enumeration on the real functions:
      vectors) under every answer vector of numpy.random.choice, with dominates() wrapped:
      every (objectives, violation) pair it receives must be a visited candidate's OWN evaluation
      and the returned leader must not be dominated by any visited candidate.
+  N  the neighbourhood mutators MutatorA / MutatorB (they use pymoo's non-dominated sort, not
+     dominates()): hillclimb() on tiny bi-objective subset problems whose first objective is a
+     count (all 0-1 element codes, so minima are tied), every start chromosome, every answer of
+     every numpy.random.choice call (tiled permutations + final pick): the returned chromosome is
+     one of the evaluated neighbours and is not Pareto-dominated by another neighbour of that step.
 """
 from __future__ import annotations
 import itertools, math
@@ -138,7 +143,7 @@ class Grid:
         return list(itertools.combinations_with_replacement(range(self.base), n))
 
 
-GRIDS = {"2g3": 0, "3g3": 1, "2g4": 2}
+GRIDS = {"2g3": 0, "3g3": 1, "2g4": 2, "1g3": 3, "1g4": 4}
 
 
 def _nperm(ms):
@@ -169,6 +174,9 @@ def _plan(tier):
     # filter layers: (grid, number of points, weight set)
     F = []
     for n in range(1, (6 if T else 5) + 1):
+        F.append(("1g3", n, "all"))              # single objective: weights {+-m1, +-m2}
+        F.append(("1g4", n, "all"))
+    for n in range(1, (6 if T else 5) + 1):
         F.append(("2g3", n, "all"))
     for n in range(1, 3 + 1):
         F.append(("3g3", n, "all" if (T or n <= 2) else "sign"))
@@ -184,6 +192,8 @@ def _plan(tier):
         F.append(("3g3", n, "zero"))
     # transform layers: (grid, number of points)
     Tl = []
+    for n in range(1, 3 + 1):
+        Tl.append(("1g3", n))                    # single objective: a front is one point, possibly repeated
     for n in range(1, (6 if T else 5) + 1):
         Tl.append(("2g3", n))
     for n in range(1, (5 if T else 4) + 1):
@@ -199,6 +209,9 @@ def shards(tier, seed):
     for n, k in ((3, 1), (3, 2), (4, 1), (4, 2), (5, 1), (5, 2)):
         for mode in ("", "G", "H", "GH"):
             out.append(("M", n, k, mode))
+    for cls in ("MutatorA", "MutatorB"):
+        for n, k, nstep in ((4, 2, 2), (4, 2, 3), (5, 2, 2)):
+            out.append(("N", cls, n, k, nstep))
     for gname, n, wset in F:
         G = Grid.get(gname, seed)
         nw = sum(len(g) for g in weight_sets(G.k, seed)[wset])
@@ -809,6 +822,94 @@ def run_M(spec, ctx):
                         ctx.count("M:executions-with-H-varying-between-subsets")
 
 
+# ---------------------------------------------------------------------------- layer N (neighbourhood mutators MutatorA / MutatorB)
+PN = "pymoo_addon.{}.hillclimb:"
+
+
+def _choice_menu(a, size, replace):
+    """All answers numpy.random.choice(a, size, replace) can give (a: int or 1-D array)."""
+    pop = list(range(a)) if isinstance(a, (int, numpy.integer)) else list(numpy.asarray(a).tolist())
+    if size is None:
+        return [v for v in pop]
+    assert replace is False
+    return [numpy.array(t, dtype="int64") for t in itertools.permutations(pop, int(size))]
+
+
+def n_run(case, prefix):
+    """One execution of MutatorA/B.hillclimb under the answer prefix (then first answers); returns (taken, menu sizes, result)."""
+    import pybrops.opt.algo.pymoo_addon as PA
+    from pymoo.core.problem import Problem
+    n, k, cvec, nstep = case["n"], case["k"], case["c"], case["nhcstep"]
+    b = M_B[case["seed"] % 3]
+    Ft = {sub: (float(sum(cvec[i] for i in sub)), float(sum(b[i] for i in sub))) for sub in itertools.combinations(range(n), k)}
+    batches, taken, menus = [], [], []
+
+    class TableProblem(Problem):
+        def __init__(self):
+            super().__init__(n_var=k, n_obj=2, xl=0, xu=n - 1)
+
+        def _evaluate(self, x, out, *a, **kw):
+            rows = [tuple(int(v) for v in r) for r in numpy.atleast_2d(x)]
+            batches.append(rows)
+            out["F"] = numpy.array([Ft[tuple(sorted(r))] for r in rows])
+
+    real = numpy.random.choice
+
+    def choice(a, size=None, replace=True, p=None):
+        menu = _choice_menu(a, size, replace)
+        i = prefix[len(taken)] if len(taken) < len(prefix) else 0
+        taken.append(i)
+        menus.append(len(menu))
+        return menu[i]
+    cls = getattr(PA, case["cls"])
+    mut = cls(setspace=numpy.arange(n), phc=1.0, nhcstep=nstep)
+    numpy.random.choice = choice
+    try:
+        out = mut.hillclimb(TableProblem(), numpy.array(case["start"], dtype="int64"))
+    finally:
+        numpy.random.choice = real
+    return taken, menus, out, batches, Ft
+
+
+def n_oracle(case, taken, out, batches, Ft):
+    P = PN.format(case["cls"])
+    nb = batches[-1]                      # the neighbours evaluated in this step
+    res = tuple(int(v) for v in numpy.asarray(out).ravel())
+    desc = f"{case['cls']} setspace range({case['n']}) start {case['start']} first-objective codes {case['c']} nhcstep {case['nhcstep']} " \
+           f"answers {taken}: neighbours {[(list(r), Ft[tuple(sorted(r))]) for r in nb]}"
+    require(res in nb, P + "returned-not-a-neighbour", f"{desc}: returned {list(res)}")
+    fr = Ft[tuple(sorted(res))]
+    for r in nb:
+        fo = Ft[tuple(sorted(r))]
+        require(not (all(x <= y for x, y in zip(fo, fr)) and any(x < y for x, y in zip(fo, fr))), P + "returned-neighbour-dominated",
+                f"{desc}: returned {list(res)} with objectives {fr} is dominated by the evaluated neighbour {list(r)} with {fo}")
+
+
+def run_N(spec, ctx):
+    _, cls, n, k, nstep = spec
+    ctx.flag(f"N:{cls}:n{n}:k{k}:s{nstep}")
+    for cvec in itertools.product((0, 1), repeat=n):
+        for start in itertools.permutations(range(n), k):
+            base = dict(layer="N", cls=cls, n=n, k=k, nhcstep=nstep, c=list(cvec), start=list(start), seed=ctx.seed)
+            stack = [[]]
+            while stack:
+                prefix = stack.pop()
+                taken, menus, out, batches, Ft = n_run(base, prefix)
+                for i in range(len(prefix), len(menus)):
+                    for alt in range(1, menus[i]):
+                        stack.append(taken[:i] + [alt])
+                case = dict(base, answers=list(taken))
+                ctx.evaluations += 1
+                ctx.transitions += 1
+                ctx.state(("N", cls, n, k, nstep, cvec, start, tuple(taken)))
+                if len({Ft[tuple(sorted(r))][0] for r in batches[-1]}) < len(set(batches[-1])):
+                    ctx.count("N:executions-with-a-tied-first-objective-among-neighbours")
+                    ctx.nontriv(("N", cls, n, k, nstep, cvec, start, tuple(taken)))
+                if ctx.guard(lambda: n_oracle(case, taken, out, batches, Ft), case=case, sig_prefix=PN.format(cls)):
+                    ctx.traces += 1
+                    ctx.outcome(("N", cls, tuple(int(v) for v in numpy.asarray(out).ravel())))
+
+
 # ---------------------------------------------------------------------------- driver
 def run_shard(spec, ctx):
     F, Tl = _plan(ctx.tier)
@@ -829,7 +930,7 @@ def run_shard(spec, ctx):
         if spec[4] == 0 and spec[2] == 3:
             # one actual case per 3-point layer as a sample (an extra, uncounted call)
             G = Grid.get(spec[1], ctx.seed)
-            ms = next(m for m in G.multisets(3) if len(set(m)) == 3 and m[0] > 0)
+            ms = next((m for m in G.multisets(3) if len(set(m)) == 3 and m[0] > 0), G.multisets(3)[-2])
             w = W(G, weight_sets(G.k, ctx.seed)[spec[3]][1][0])
             ctx.sample(dict(layer="F", points=_pts(G, ms), wt=w.lst, mask=f_observe(G, ms, w, "mask").tolist(),
                             index=f_observe(G, ms, w, "index").tolist(),
@@ -840,6 +941,8 @@ def run_shard(spec, ctx):
         run_T(spec, ctx)
     elif spec[0] == "M":
         run_M(spec, ctx)
+    elif spec[0] == "N":
+        run_N(spec, ctx)
     else:
         raise ValueError(spec)
 
@@ -859,6 +962,10 @@ def finalize(ctx, tier, seed):
         for mode in ("none", "G", "H", "GH"):
             assert f"M:n{n_}:k{k_}:{mode}" in ctx.flags, (n_, k_, mode)
     assert c.get("M:executions-with-H-varying-between-subsets", 0) > 1000
+    for cls in ("MutatorA", "MutatorB"):
+        for n_, k_, st_ in ((4, 2, 2), (4, 2, 3), (5, 2, 2)):
+            assert f"N:{cls}:n{n_}:k{k_}:s{st_}" in ctx.flags, (cls, n_, k_, st_)
+    assert c.get("N:executions-with-a-tied-first-objective-among-neighbours", 0) > 1000
     assert c.get("F:cases-with-a-dominated-point(reference)", 0) > 1000, c.get("F:cases-with-a-dominated-point(reference)")
     assert c.get("F:multisets-with-several-orders-compared", 0) > 100
     assert c.get("F:rescaling-groups-compared", 0) > 100
@@ -921,6 +1028,9 @@ def replay(case, ctx):
             ctx.violation(PD + "not-transitive", f"x>y, y>z, not x>z for {sts}", case)
     elif lay == "M":
         ctx.guard(lambda: m_case(ctx, case), case=case, sig_prefix=PM)
+    elif lay == "N":
+        taken, menus, out, batches, Ft = n_run(case, case["answers"])
+        ctx.guard(lambda: n_oracle(case, taken, out, batches, Ft), case=case, sig_prefix=PN.format(case["cls"]))
     elif lay == "T":
         G = Grid.get(case["grid"], seed)
         global IMPLS
